@@ -19,6 +19,7 @@ NodeCfgs == <<
                                                                                   \*   refuses n = 6.5 (still exactly once)
   Req2 \cup {MP, E("n", "value", "B", "float", 15), E("export", "value", "B", "bool", 0),    \* 2 healthy, not exported, driver bug on n,
    E("g2", "value", "P", "int", 40), E("h2", "value", "B", "int", 80),             \*   one of each group only,
+   E("omit_unchanged_within", "value", "B", "int", 0),                             \*   omit_unchanged_within = 0,
    E("a", "max", "P", "int", 120), E("b", "value", "B", "int", 10),                \*   limit overrides; the
              E("s", "value", "P", "str", 24), E("s", "max", "P", "int", 64)},       \*   string only fits the overridden maxchars
   Base \cup {E("a", "value", "B", "int", 300)},                                   \* 3 outside (loose)
